@@ -1,3 +1,4 @@
+import dataclasses
 from collections.abc import Sequence
 from dataclasses import dataclass
 from typing import Any
@@ -357,10 +358,12 @@ def optim_flat(
     if stopper is None:
         stopper = Stopper(max_iter=10_000, patience=10)
 
-    user_patience = stopper.patience
+    user_stopper = stopper
     if model_validation is None:
         model_validation = model_train
-        stopper.patience = stopper.max_iter
+        # no early stopping; the stopper of the caller is left as it is, also if
+        # an error is raised further down
+        stopper = dataclasses.replace(stopper, patience=stopper.max_iter)
 
     if optimizer is None:
         optimizer = optax.adam(learning_rate=1e-2)
@@ -566,7 +569,7 @@ def optim_flat(
 
     # ---------------------------------------------------------------------------------
     # Set final position and model state
-    stopper.patience = user_patience
+    stopper = user_stopper
     ibest = stopper.which_best_in_recent_history(
         i=max_iter, loss_history=val["history"]["loss_validation"]
     )
